@@ -489,7 +489,7 @@ def run(tier='quick'):
                        'the documented operator of each family (22-line FAMILY_TOKEN list in props/C24.py) is the oracle for R4']
     try:
         eng, syn, fop = facts.extract([
-            ('src/interpreter/Engine.cpp', r'interpreter/Engine\.cpp$|BinaryConstraintOps\.h$', r'Engine::execute|getBinaryConstraintTypes'),
+            ('src/interpreter/Engine.cpp', r'interpreter/Engine\.cpp$|BinaryConstraintOps\.h$', r'Engine::execute$|getBinaryConstraintTypes', None, r'ram::(IntrinsicOperator|Constraint) &'),
             ('src/synthesiser/Synthesiser.cpp', r'synthesiser/Synthesiser\.cpp$', r'CodeEmitter::visit_'),
             ('src/FunctorOps.cpp', r'FunctorOps\.(cpp|h)$|TypeAttribute\.h$', '.*')])
     except facts.Broken as e:
